@@ -169,6 +169,7 @@ SIMPLE_CORE = [
     _cons('simple', ['gnp', 6, 0.5], 'saved', 'kthlist', False),
     _file('simple', 'S1', 'gml'),
     _file('simple', 'S2', 'kthlist'),
+    _file('simple', 'S2', 'kthlist', 'digit'),
 ]
 # every construction / modifier / file format / way of naming the format
 SIMPLE_MORE = [
@@ -193,6 +194,11 @@ SIMPLE_MORE = [
     _file('simple', 'S12', 'kthlist'),
     _stdin('simple', 'S3', 'kthlist'),
     _stdin('simple', 'S1', 'gml'),
+    # the format named explicitly while the extension names another one; a
+    # bare file name that starts like a number
+    _file('simple', 'S1', 'kthlist', 'misleading'),
+    _file('simple', 'S3', 'dimacs', 'misleading'),
+    _file('simple', 'S1', 'gml', 'digit'),
 ]
 # graphs where every degree is even (the even colouring formula is defined)
 SIMPLE_EVEN = [
@@ -227,6 +233,9 @@ DAG_MORE = [
     _file('dag', 'D2', 'gml', True),
     _stdin('dag', 'D2', 'kthlist'),
     _stdin('dag', 'D1', 'dimacs'),
+    _file('dag', 'D2', 'kthlist', 'misleading'),
+    _file('dag', 'D1', 'gml', 'misleading'),
+    _file('dag', 'D2', 'kthlist', 'digit'),
 ]
 
 BIP_CORE = [
@@ -234,6 +243,7 @@ BIP_CORE = [
     _cons('bipartite', ['shift', 3, 4, 0, 1], 'direct', 'bipartite_shift', 3, 4, [0, 1]),
     _cons('bipartite', ['glrp', 3, 3, 0.5], 'saved', 'kthlist', False),
     _file('bipartite', 'B1', 'matrix'),
+    _file('bipartite', 'B1', 'matrix', 'digit'),
 ]
 BIP_MORE = [
     _cons('bipartite', ['empty', 2, 2], 'direct', 'BipartiteGraph', 2, 2),
@@ -251,6 +261,9 @@ BIP_MORE = [
     _file('bipartite', 'B2', 'kthlist', True),
     _stdin('bipartite', 'B1', 'matrix'),
     _stdin('bipartite', 'B2', 'kthlist'),
+    _file('bipartite', 'B1', 'kthlist', 'misleading'),
+    _file('bipartite', 'B1', 'matrix', 'misleading'),
+    _file('bipartite', 'B2', 'kthlist', 'digit'),
 ]
 # bipartite graphs with exactly 3 left vertices (explicit compression maps
 # for a formula with 3 variables)
@@ -262,6 +275,8 @@ BIP_LEFT3 = [
     _file('bipartite', 'B1', 'matrix'),
     _file('bipartite', 'B3', 'gml'),
     _stdin('bipartite', 'B3', 'kthlist'),
+    _file('bipartite', 'B3', 'matrix', 'digit'),
+    _file('bipartite', 'B1', 'kthlist', 'misleading'),
 ]
 
 
@@ -288,11 +303,12 @@ def graph_tokens(gd, tmp, tag):
             toks = list(gd['tok']) + ['save', path]
     elif kind == 'file':
         cid, fmt, explicit = lib[1], lib[2], lib[3]
-        if explicit:
-            path = os.path.join(tmp, 'in_%s_%s.txt' % (tag, cid))
+        path = file_path(gd, tmp, tag)
+        if explicit == 'digit':
+            toks = [os.path.basename(path)]     # relative to the working directory
+        elif explicit:
             toks = [fmt, path]
         else:
-            path = os.path.join(tmp, 'in_%s_%s.%s' % (tag, cid, fmt))
             toks = [path]
         files.append((path, file_text(cid, fmt)))
     elif kind == 'stdin':
@@ -302,6 +318,27 @@ def graph_tokens(gd, tmp, tag):
     else:
         raise KeyError(kind)
     return toks, stdin, files
+
+
+_OTHER_EXT = {'kthlist': 'gml', 'gml': 'kthlist', 'dimacs': 'kthlist', 'dot': 'gml', 'matrix': 'kthlist'}
+
+
+def file_path(gd, tmp, tag):
+    """Where the harness writes the file of a 'file' graph argument.
+    explicit: False  in_<tag>_<cid>.<fmt>            given as  <path>
+              True   in_<tag>_<cid>.txt              given as  <fmt> <path>
+              'misleading'  in_<tag>_<cid>.<another supported format>
+                                                     given as  <fmt> <path>
+              'digit'  5in_<tag>_<cid>.<fmt>         given by its bare name,
+                       which starts like a number (working directory = tmp)"""
+    cid, fmt, explicit = gd['lib'][1], gd['lib'][2], gd['lib'][3]
+    if explicit == 'misleading':
+        return os.path.join(tmp, 'in_%s_%s.%s' % (tag, cid, _OTHER_EXT[fmt]))
+    if explicit == 'digit':
+        return os.path.join(tmp, '5in_%s_%s.%s' % (tag, cid, fmt))
+    if explicit:
+        return os.path.join(tmp, 'in_%s_%s.txt' % (tag, cid))
+    return os.path.join(tmp, 'in_%s_%s.%s' % (tag, cid, fmt))
 
 
 def graph_saved_path(gd, tmp, tag):
@@ -330,9 +367,10 @@ def graph_lib(gd, tmp, tag, L):
         return G.readGraph(path, gd['t'], fmt if lib[2] else 'autodetect')
     if kind == 'file':
         cid, fmt, explicit = lib[1], lib[2], lib[3]
-        if explicit:
-            return G.readGraph(os.path.join(tmp, 'in_%s_%s.txt' % (tag, cid)), gd['t'], fmt)
-        return G.readGraph(os.path.join(tmp, 'in_%s_%s.%s' % (tag, cid, fmt)), gd['t'], 'autodetect')
+        path = file_path(gd, tmp, tag)
+        if explicit and explicit != 'digit':
+            return G.readGraph(path, gd['t'], fmt)
+        return G.readGraph(path, gd['t'], 'autodetect')
     if kind == 'stdin':
         cid, fmt = lib[1], lib[2]
         return G.readGraph(io.StringIO(file_text(cid, fmt)), gd['t'], fmt)
